@@ -36,6 +36,19 @@ CLAIMED.update({
         note="positions are identified by syntactically equal item prefixes (forks through differently spelled equivalent prefixes are not seen); does not bound the backward scan of get_last_non_whitespace_token"),
 })
 
+CLAIMED.update({
+    "C11": dict(
+        technique="ownership / layout / sibling-agreement rules on the error plumbing (who may construct SyntaxError, argument tuple layout, span coherence, range order at call sites)",
+        category="other",
+        text="Decides that every SyntaxError/IndentationError reachable from the parser is built by the two builders with CPython's argument layout (both 0->1-based column conversions), text from the reported token or line range, coherent start/end in every raise_* helper, earlier item first in range errors, and that errors born in ast.literal_eval are intercepted. Deviations on today's tree (version gate, macro bracket mismatch, tokenizer IndentationError, literal_eval) are listed known findings.",
+        note="token coordinates themselves are assumed right (C08); totality of the line lookup is C03/E3"),
+    "C12": dict(
+        technique="sibling-implementation agreement of the two entry points + effect rules on open()/StringIO arguments",
+        category="other",
+        text="Decides that parse_file and parse_string build the same pipeline and differ only in readline source, path= and filename=; that every open() names UTF-8; that both paths use the same newline translation; that the two sources of SyntaxError.text are selected by the path only and number lines alike.",
+        note="PEP 263 coding cookies out of scope; relies on C03/C11 rules for the line lookup itself"),
+})
+
 NOT_APPLICABLE = {
     "C17": "quantifies over all grammars x all token strings; semantic equivalence of emitted code and a PEG interpreter cannot be decided from the shape of the generator source (DESIGN.md §5)",
 }
